@@ -12,6 +12,8 @@ def run(ck):
         a = ["--cases", n, "--seed", sa.subseed(ck, i), "--dir", os.path.join(ck.rundir, "sess%d" % i)]
         if thorough:
             a.append("--thorough")
+        if i == 0:
+            a.append("--huge")       # one job only: a reader that trusts the size field would allocate gigabytes
         jobs.append(dict(exe=asan, args=a, label="fstore%d" % i, timeout=14400))
     # "garbage collection ... never removes a live session" also while other threads / processes save: owners save an expired and
     # then a live value under their own id and must load it back, disturbers load the same ids and run gc(); unlink() is delayed
@@ -37,4 +39,4 @@ def run(ck):
               "garbage collection is run on directories of live, expired, unreadable and foreign files against a model. Concurrent part: 1..3 owner threads (expired save, live save, load) against a gc thread and 0..2 loader "
               "threads, and against gc/loader processes forked after the storage was created, for plain-mutex, process-shared-mutex and fcntl locking, under ASan and ThreadSanitizer. non-trivial = distinct (old file, new payload) cases",
               "crash_states", "cases", min_evals=20000,
-              required_nonzero=("states_prefix", "states_byte_prefix", "states_sector_subset", "states_real_crash", "loads_returning_a_session", "loads_reporting_no_session", "gc_files_judged", "conc_rounds", "conc_gc_runs", "conc_disturber_loads", "unlinks_delayed", "conc_scenarios_processes_fcntl", "conc_scenarios_threads_pshared-mutex"))
+              required_nonzero=("states_prefix", "states_byte_prefix", "states_sector_subset", "states_real_crash", "loads_returning_a_session", "loads_reporting_no_session", "gc_files_judged", "garbage_size_field_cases", "conc_rounds", "conc_gc_runs", "conc_disturber_loads", "unlinks_delayed", "conc_scenarios_processes_fcntl", "conc_scenarios_threads_pshared-mutex"))
